@@ -10,7 +10,7 @@ import (
 // C16: generators and the topology enumerator, library level. The global math/rand source is seeded per
 // case (the generators draw from it).
 
-var genNames = []string{"uniform", "yule", "caterpillar", "balanced", "star"}
+var genNames = []string{"uniform", "yule", "caterpillar", "balanced", "star", "starnames", "startree"}
 
 func runGenerator(gen string, n int, rooted bool) (*tree.Tree, error) {
 	switch gen {
@@ -22,9 +22,36 @@ func runGenerator(gen string, n int, rooted bool) (*tree.Tree, error) {
 		return tree.RandomCaterpillarBinaryTree(n, rooted)
 	case "balanced":
 		return tree.RandomBalancedBinaryTree(n, rooted)
+	case "starnames":
+		return tree.StarTreeFromName(starNames(n)...)
+	case "startree":
+		// the star tree on the tips of another tree (what the consensus starts from)
+		src, err := tree.StarTreeFromName(starNames(n)...)
+		if err != nil {
+			return nil, err
+		}
+		return tree.StarTreeFromTree(src)
 	default:
 		return tree.StarTree(n)
 	}
+}
+
+// n names given in an order that is not the sorted one (and not the order of Tip0, Tip1, ...)
+func starNames(n int) []string {
+	names := []string{}
+	for i := 0; i < n; i++ {
+		names = append(names, fmt.Sprintf("n%d", (i*7+3)%maxi(n, 1)*3+i%3))
+	}
+	seen := map[string]bool{}
+	out := []string{}
+	for i, nm := range names {
+		if seen[nm] {
+			nm = fmt.Sprintf("%s_%d", nm, i)
+		}
+		seen[nm] = true
+		out = append(out, nm)
+	}
+	return out
 }
 
 // documented minimum of each generator (n = tips, depth for balanced)
@@ -32,7 +59,7 @@ func genMin(gen string, rooted bool) int {
 	switch gen {
 	case "balanced":
 		return 1
-	case "star":
+	case "star", "starnames", "startree":
 		return 2
 	}
 	if rooted {
@@ -59,6 +86,9 @@ func genEvent(gen string, n int, rooted bool, label string) *CEvent {
 		ev.Out = project(t, ProjOpt{Idx: true, Enum: true})
 		l4, _ := ev.Out.e4Edges()
 		ev.Res = map[string]interface{}{"len4": l4, "ntips": ntips}
+		if gen == "starnames" || gen == "startree" {
+			ev.Res["names"] = starNames(n)
+		}
 		return nil
 	})
 	if kind == "Generator" && ntips < 3 {
